@@ -446,10 +446,10 @@ def run(ctx):
     build_coq(ctx)
     ctx.prove(PROOF_MODULES, OBLIGATIONS)
     drv, model = build(ctx)
-    n = 420 if ctx.tier == "quick" else 12000
+    n = 420 if ctx.tier == "quick" else 6000
     cases = list(CORPUS) + class_cases() + gen_cases(ctx.rng, ctx.tier, n)
     explore(ctx, drv, model, cases)
-    npoly = 120 if ctx.tier == "quick" else 3000
+    npoly = 120 if ctx.tier == "quick" else 2000
     explore_poly(ctx, drv, model, list(POLY_CORPUS) + [gen_poly(ctx.rng, ctx.tier) for _ in range(npoly)])
     if ctx.broken and not ctx.violations:
         # a proof or the tie broke: search harder for a concrete failing input
@@ -463,13 +463,20 @@ def run(ctx):
                        "library's tree")
     ctx.assumptions += [
         "the canonicalising constructors add/mul/pow/div/sub/neg/sin/.../subs are not modelled: the model returns the construction term and the "
-        "library evaluates it (tie tiers: EXACT = eq trees, EXPAND = equal after expand(a-b), NUMERIC = equal at 3+ sample points)",
+        "library evaluates it (tie tiers: EXACT = eq trees, EXPAND = equal after expand(a-b), NUMERIC = equal at 3+ sample points; counts in coverage)",
         "apply() on values the visitor constructs itself (pow(base, exp) of a Mul entry, mul(exp, log(base)), div(num, den)) is modelled by the "
         "Pow rule / product rule / Log rule on the construction term; the `visited` cache is modelled for sub-trees of the input only",
-        "mul(0, a) = 0 and add(0, a) = a for the literal Integer 0 (a not an infinity/NaN number)",
-        "soundness theorems are over the reals (Coquelicot is_derive); complex points are covered by the numeric oracle only",
-        "polynomial classes: UIntPoly / URatPoly / MIntPoly are modelled on their dictionaries (own case family P); UExprPoly by the oracle only "
-        "(diff of the object against diff of its symbolic form); MExprPoly, GaloisField, FunctionWrapper, matrices, series: not covered",
+        "mul(0, a) = 0 and add(0, a) = a for the literal Integer 0 (a not an infinity/NaN number: see the known findings on singular constants)",
+        "C10_diff_sound is over the reals (Coquelicot is_derive; acot/asec/acsc/acoth/asech/acsch as eval_double evaluates them, through the "
+        "reciprocal argument; atan2 for a positive second argument); complex points are covered by the numeric oracle only; "
+        "erf/erfc/gamma/loggamma/lambertw/zeta/polygamma/beta rules have no real function in the libraries: their rule shape is tied by the translator "
+        "and checked by the numeric oracle where eval_double can evaluate them",
+        "C10_diff_cache_irrelevant assumes that eq sub-trees of the input are identical (the model's result lists Add entries in tree order); "
+        "on the library the oracle compares diff(e, x, true) with diff(e, x, false) on every case",
+        "polynomial classes: UIntPoly / URatPoly / MIntPoly are modelled on their dictionaries (own case family P; theorems for UIntPoly and URatPoly); "
+        "UExprPoly by the oracle only (diff of the object against diff of its symbolic form); MExprPoly, GaloisField, FunctionWrapper, matrices, "
+        "series: not covered",
+        "the C10 Coq modules are compiled by the check itself (build_coq) until they are listed in coq/_CoqProject",
     ]
 
 
